@@ -1104,7 +1104,7 @@ func wireCore(c wireCase, exclude []string) (err error, vi valueInfo) {
 		if err != nil {
 			return pbt.Failf("C20/wire-api-rejects-standard-encoding", "%s: api type cannot decode %s: %v", c.Type, short(in), err), vi
 		}
-		if !proto.Equal(d0, dynFrom(md, p0)) {
+		if !proto.Equal(d0, p0) {
 			return pbt.Failf("C20/wire-api-decodes-differently", "%s: api type decodes %s to a value different from the descriptor-driven decoder:\n api %v\n dyn %v", c.Type, short(in), p0, d0), vi
 		}
 		b1, err := proto.Marshal(p0)
